@@ -31,6 +31,7 @@ def zero_factor_product(m, ctx):
 
 
 def check(stats, m, env, query, as_object=False, selfcheck=False, sub="reverse"):
+    m = safe(m)
     stats.case()
     r, ctx = DV.value_context(m, env)
     stats.count("ref:" + r.st)
